@@ -44,7 +44,7 @@ TIERS = {
                   api="Gen_FunctionSet_quick.cfg", nrandom=6000, timeout=600),
     "thorough": dict(gen=["Gen_Functions_thorough_a.cfg", "Gen_Functions_thorough_b.cfg"], mc="MC_Functions_thorough.cfg",
                      coverage=True,
-                     api="Gen_FunctionSet_thorough.cfg", nrandom=40000, timeout=2400),
+                     api="Gen_FunctionSet_thorough.cfg", nrandom=100000, timeout=2400),
 }
 
 # wrong variant of the machine -> the property of MC_Functions that must refute it
